@@ -21,13 +21,28 @@ def create_msg(denoms, decimals, fees, ptype, ident=None):
                    pool_fees=fees, pool_type=ptype, pool_identifier=NONE() if ident is None else Some(ident))
 
 
+def _replay_create_fees(tf_shape):
+    def build(m):
+        tf = {'none': [], 'other': [('uom', m['tf1'])], 'same': [('uusd', m['tf1'])], 'two': [('uusd', m['tf1']), ('uom', m['tf2'])]}[tf_shape]
+        funds = [(d, m[k]) for d, k in (('uatom', 'paid_atom'), ('uom', 'paid_om'), ('uusd', 'paid_usd')) if m[k] > 0]
+        steps = _mints([('creator', funds)])
+        steps.append({'op': 'execute', 'contract': 'pool_manager', 'sender': 'creator', 'funds': [coin_j(d, a) for d, a in funds],
+                      'msg': {'create_pool': {'asset_denoms': ['uA', 'uB'], 'asset_decimals': [6, 6],
+                                              'pool_fees': {'protocol_fee': {'share': '0.001'}, 'swap_fee': {'share': '0.001'}, 'burn_fee': {'share': '0'}, 'extra_fees': []},
+                                              'pool_type': 'constant_product', 'pool_identifier': None}}})
+        sc = {'setup': {'pool': {'pool_creation_fee': {'denom': 'uusd', 'amount': str(m['creation_fee'])}}},
+              'tf_fees': [coin_j(d, a) for d, a in tf], 'steps': steps}
+        return sc, len(steps) - 1
+    return generic_replay(build)
+
+
 def _ob_create_fees(tf_shape):
     """tf_shape: 'none' | 'other' (one TF fee coin in another denom) | 'same' (TF fee in the creation-fee denom) | 'two' (same + other)"""
     def s(I):
         I.set_hint(HINT)
         F = I.sym('creation_fee', hi=U128 // 4)
         pm_config(I, creation_fee=coin_v('uusd', F))
-        I.world.store(PM)['pool_count'] = 4
+        I.world.store(PM)['pool_count'] = 0
         t1 = I.sym('tf1', lo=1, hi=U128 // 4)
         t2 = I.sym('tf2', lo=1, hi=U128 // 4)
         tf = {'none': [], 'other': [coin_v('uom', t1)], 'same': [coin_v('uusd', t1)], 'two': [coin_v('uusd', t1), coin_v('uom', t2)]}[tf_shape]
@@ -48,6 +63,7 @@ def _ob_create_fees(tf_shape):
         pre = b.snapshot()
         st, resp = ch.execute('creator', PM, create_msg(['uA', 'uB'], [6, 6], fees, xyk(), None), funds)
         exact = smt.And(*[smt.Eq(paid[d], need.get(d, 0)) for d in ('uusd', 'uom', 'uatom')])
+        observe_bank(I, b, [(PM, d) for d in ('uusd', 'uom', 'uatom')] + [('fee_collector', 'uusd'), ('creator', 'uusd'), ('creator', 'uom'), ('creator', 'uatom')])
         if st != 'ok':
             I.cover('rejected', HINT)
             I.observe('status', 'err')
@@ -58,15 +74,15 @@ def _ob_create_fees(tf_shape):
         I.check('accepted_only_with_exact_fees', exact)
         I.check('creation_fee_to_fee_collector', smt.Eq(b.get('fee_collector', 'uusd'), pre.get('fee_collector', 'uusd') + F))
         I.check('nothing_kept', smt.And(*[smt.Eq(b.get(PM, d), pre.get(PM, d)) for d in ('uusd', 'uom', 'uatom')]))
-        p = get_pool(I, 'p.5')
+        p = get_pool(I, 'p.1')
         I.check('pool_stored_under_generated_id', p is not None)
         if p is not None:
             I.check('zero_reserves', smt.And(*[smt.Eq(r, 0) for r in reserves_of(p)]))
             stt = p.get('status')
             I.check('all_switches_on', stt.get('swaps_enabled') is True and stt.get('deposits_enabled') is True and stt.get('withdrawals_enabled') is True)
-            I.check('lp_denom_from_identifier', p.get('lp_denom') == 'factory/pool_manager/p.5.LP')
-        I.check('counter_advanced', I.world.store(PM)['pool_count'] == 5)
-        I.check('denom_created', 'factory/pool_manager/p.5.LP' in I.world.meta.get('tf_denoms', []))
+            I.check('lp_denom_from_identifier', p.get('lp_denom') == 'factory/pool_manager/p.1.LP')
+        I.check('counter_advanced', I.world.store(PM)['pool_count'] == 1)
+        I.check('denom_created', 'factory/pool_manager/p.1.LP' in I.world.meta.get('tf_denoms', []))
     return s
 
 
@@ -78,7 +94,7 @@ for _sh in ('none', 'other', 'same', 'two'):
                          'nothing else attached); the creation fee goes to the fee collector, the token-factory fee is consumed, nothing is kept; '
                          'the pool starts with zero reserves, all switches on, LP denom derived from the identifier',
                bounds='creation fee and token-factory fees symbolic (TF fee shape: %s); funds: arbitrary amounts of uusd/uom plus optional foreign coin' % _sh,
-               covers=['ok', 'rejected'])(_ob_create_fees(_sh))
+               covers=['ok', 'rejected'], replay=_replay_create_fees(_sh))(_ob_create_fees(_sh))
 
 
 def _ob_create_params(I):
